@@ -430,6 +430,36 @@ pub fn run(ctx: Ctx) -> Report {
                 }
             }
         }
+        // stalled neighbours: local clients that have connected and sent nothing, or only a part of their greeting or
+        // request, and stay that way ("ends that connection only"): everybody else is served as usual meanwhile
+        {
+            let mut held = Vec::new();
+            let prefixes: Vec<Vec<u8>> = vec![vec![], vec![5], vec![5, 2, 0], vec![5, 1, 0, 5], vec![5, 1, 0, 5, 1, 0, 3, 200, b'a']];
+            for round in 0..if quick { 2 } else { 10 } {
+                for pre in &prefixes {
+                    if let Ok(mut s) = TcpStream::connect(&w.socks).await {
+                        let _ = s.set_nodelay(true);
+                        let _ = s.write_all(pre).await;
+                        held.push(s);
+                    }
+                }
+                tokio::time::sleep(Duration::from_millis(60)).await;
+                for k in 0..4u32 {
+                    let ip = netkit::uniq_ip(96, round * 10 + k + 1);
+                    let t0 = tokio::time::Instant::now();
+                    let r = netkit::socks5_connect(&w.socks, &netkit::SocksDest::V4(ip, w.target_port), Duration::from_secs(6)).await;
+                    let case = json!({"kind": "c16-stalled-neighbours", "held_connections": held.len(), "round": round});
+                    rep.case(Some(hash_str(&format!("{case}{k}"))));
+                    rep.add("requests_served_next_to_stalled_connections", 1);
+                    match r {
+                        Ok((_, 0)) => {}
+                        Ok((_, code)) => rep.violate("socks5", "stalled_neighbours", "well_formed_request_refused", format!("with {} other local connections open that have sent nothing or only part of their greeting/request, a well-formed CONNECT to an accepting target got reply {code:#04x}", held.len()), case),
+                        Err(e) => rep.violate("socks5", "stalled_neighbours", "well_formed_request_not_served", format!("with {} other local connections open that have sent nothing or only part of their greeting/request, a well-formed CONNECT got no answer within 6 s ({e}; waited {} ms)", held.len(), t0.elapsed().as_millis()), case),
+                    }
+                }
+            }
+            drop(held);
+        }
         rep
     });
     rep.merge(out);
@@ -445,9 +475,9 @@ pub fn run(ctx: Ctx) -> Report {
 pub fn meta() -> CheckMeta {
     CheckMeta {
         level: "exploration",
-        rule: "raw loopback connections to the real start_socks5_server (real Client + Server + echo targets on unique 127.88.a.b addresses, fake DNS): all greeting version bytes, method lists of length 0..255 with/without 0x00, all 256 command codes, request version bytes, all 256 address-type bytes, domain lengths 0..255 and invalid UTF-8 names, IPv6 requests (::1, global, IPv4-mapped loopback: the Dial event must carry exactly that IPv6 address), port boundaries, accepting and refusing targets; delivered part by part, in one segment, byte at a time, and (for a CONNECT and a BIND request) split at every position (quick: a stratified subset of the byte ranges). Oracle = 30-line reference model: `05 00` exactly when no-auth was offered; no Dial event / target accept / success reply for refused negotiations, non-CONNECT commands, bad versions, bad address types, empty or non-UTF-8 names; for CONNECT a Dial to exactly the requested address, reply 00 iff the target accepted (confirmed by accept log and an echo through the tunnel), a failure code for refusing targets. Closing without a reply counts as refusing. distinct_nontrivial = distinct (byte strings, fragmentation).".into(),
+        rule: "raw loopback connections to the real start_socks5_server (real Client + Server + echo targets on unique 127.88.a.b addresses, fake DNS): all greeting version bytes, method lists of length 0..255 with/without 0x00, all 256 command codes, request version bytes, all 256 address-type bytes, domain lengths 0..255 and invalid UTF-8 names, IPv6 requests (::1, global, IPv4-mapped loopback: the Dial event must carry exactly that IPv6 address), port boundaries, accepting and refusing targets; delivered part by part, in one segment, byte at a time, and (for a CONNECT and a BIND request) split at every position (quick: a stratified subset of the byte ranges). Oracle = 30-line reference model: `05 00` exactly when no-auth was offered; no Dial event / target accept / success reply for refused negotiations, non-CONNECT commands, bad versions, bad address types, empty or non-UTF-8 names; for CONNECT a Dial to exactly the requested address, reply 00 iff the target accepted (confirmed by accept log and an echo through the tunnel), a failure code for refusing targets. Closing without a reply counts as refusing. distinct_nontrivial = distinct (byte strings, fragmentation). Stalled neighbours: while 5-50 other local connections sit there having sent nothing, one byte, part of the method list or part of the request, well-formed CONNECTs must be answered within 6 s as usual.".into(),
         assumptions: vec!["all cases share one Client/Server pair and run 32 at a time, so every malformed connection has well-formed neighbours whose verdicts would show collateral damage".into()],
-        floors: vec![("connections", 250), ("model_refusegreeting", 40), ("model_refuserequest", 40), ("connects_dialled_as_requested", 80), ("success_replies_confirmed_by_accept_and_echo", 40), ("failure_replies_for_refusing_targets", 10)],
+        floors: vec![("connections", 250), ("model_refusegreeting", 40), ("model_refuserequest", 40), ("connects_dialled_as_requested", 80), ("success_replies_confirmed_by_accept_and_echo", 40), ("failure_replies_for_refusing_targets", 10), ("requests_served_next_to_stalled_connections", 8)],
         exhaustive: false,
     }
 }
